@@ -190,4 +190,18 @@ CLAIMED['C12'] = {
     'technique': 'contract-based deductive verification (symbolic execution of make_merchant_id + z3; syntactic definite-assignment / data-flow / embedding clauses) + bounded decode round-trip oracle',
 }
 
+CLAIMED['C04'] = {
+    'category': 'proof',
+    'text': 'Per-method contracts on the real _eval_BoolOp, _eval_UnaryOp, _eval_BinOp, _eval_IfExp and _eval_Compare of both evaluators, with the recursive evaluate(child) replaced by its contract '
+            '(a value or ExpressionError: structural induction): and/or decided by the first deciding operand and nothing after it evaluated (loop invariant over a ghost first-stop fold, stability and '
+            'leastness lemmas by induction), a comparison chain is the left-to-right conjunction of links over the operands\' own values (invariant left == value of operand k), the link meaning of the '
+            'reference (case folding of string ==, != and in, ISO date parsing), / and % by zero give 0, not is Boolean negation, a ternary evaluates only the chosen branch; contains, startswith, anyof, trim, '
+            'uppercase, lowercase, strip_prefix, strip_suffix, substring and split proved against string-theory specifications with their arity errors; double negation, De Morgan and operand swap as lemmas '
+            'over the Boolean semantics with failures. Regex / fuzzy / extract functions, comprehension scoping, generators and name resolution are decided only by the labelled bounded oracle '
+            '(CPython eval() differential over an exhaustive small grammar, reference tables, metamorphic laws). Two defects found and fixed (coerced operand carried along a chain; strip_suffix with an empty suffix).',
+    'level_note': _BASE_NOTE + ' Python operators, isinstance, str.lower/upper/strip/split and date.fromisoformat on values of unknown dynamic type are uninterpreted functions of the operands; '
+                  'TypeError from an operator is outside these contracts (converted by the dispatcher, C08); regular expressions and difflib are outside the verified text (A6).',
+    'technique': 'contract-based deductive verification (per-method contracts by symbolic execution of the real evaluator methods, ghost first-stop folds, z3/cvc5) + bounded oracle (CPython differential, reference tables, laws)',
+}
+
 NOT_APPLICABLE = {}
